@@ -11,27 +11,42 @@ open S3V S3V.SigV2 S3V.SigV2Thm
 
 def date : Bytes × Bytes := (sp!"Date", sp!"Tue, 27 Mar 2007 19:36:42 +0000")
 
-/-- finding `positional-header-repeated` (corpus `w-sts-content-type-twice`): Content-Type sent twice -/
+/-- repaired by 84b42d5 (was finding `positional-header-repeated`, corpus `w-sts-content-type-twice`):
+    Content-Type sent twice -/
 def rCtypeTwice : SigV2Spec.Req :=
   ⟨sp!"GET", [date, (sp!"Content-Type", sp!"a/b"), (sp!"Content-Type", sp!"c/d")], sp!"/bkt/k", [], none⟩
 
-/-- the code signs an empty Content-Type element, the document's reading is the comma-joined field -/
-theorem C11_counterexample_positional_repeated :
-    stsImpl .header rCtypeTwice = sp!"GET\n\n\nTue, 27 Mar 2007 19:36:42 +0000\n/bkt/k" ∧
+/-- the code signs the document's reading of the repeated field, the comma-joined values (it used to sign
+    an empty Content-Type element), and the request is inside the region of `C11_sts_impl_eq_spec_partial` -/
+theorem C11_repaired_positional_repeated :
+    stsImpl .header rCtypeTwice = sp!"GET\n\na/b,c/d\nTue, 27 Mar 2007 19:36:42 +0000\n/bkt/k" ∧
     stsSpec .header rCtypeTwice = sp!"GET\n\na/b,c/d\nTue, 27 Mar 2007 19:36:42 +0000\n/bkt/k" ∧
-    ¬ C11.WF .header rCtypeTwice := by decide +kernel
+    C11.WF .header rCtypeTwice := by decide +kernel
 
-/-- hence the full statement is false of the model -/
-theorem C11_sts_impl_eq_spec_full_false : ¬ C11.C11_sts_impl_eq_spec_full := by
-  intro h
-  have := h .header rCtypeTwice (by decide +kernel)
-  revert this
-  decide +kernel
+/-- no longer the string to sign of the request without any Content-Type: two Content-Type lines added to
+    a signed request change what is signed (corpus `w-content-type-twice-unsigned`) -/
+theorem C11_repaired_positional_tamper :
+    stsImpl .header rCtypeTwice ≠ stsImpl .header ⟨sp!"GET", [date], sp!"/bkt/k", [], none⟩ := by decide +kernel
 
-/-- the same string to sign as for the request without any Content-Type: two Content-Type lines can be
-    added to a signed request (corpus `w-content-type-twice-unsigned`) -/
-theorem C11_counterexample_positional_tamper :
-    stsImpl .header rCtypeTwice = stsImpl .header ⟨sp!"GET", [date], sp!"/bkt/k", [], none⟩ := by decide +kernel
+/-- the same for Content-MD5 and for Date (two Date lines used to be signed as no Date, and refused with
+    'missing date' when there was no x-amz-date): both are signed comma-joined, the request carries a time stamp -/
+def rMd5DateTwice : SigV2Spec.Req :=
+  ⟨sp!"PUT", [(sp!"Date", sp!"D1"), (sp!"content-md5", sp!"m1"), (sp!"DATE", sp!"D2"), (sp!"Content-MD5", sp!"m2"),
+    (sp!"Authorization", sp!"AWS AK:")], sp!"/bkt/k", [], none⟩
+
+theorem C11_repaired_positional_md5_date :
+    stsImpl .header rMd5DateTwice = sp!"PUT\nm1,m2\n\nD1,D2\n/bkt/k" ∧
+    stsSpec .header rMd5DateTwice = sp!"PUT\nm1,m2\n\nD1,D2\n/bkt/k" ∧
+    hasDate (ctxOf rMd5DateTwice) = true ∧ SigV2Spec.hasDate rMd5DateTwice = true ∧
+    C11.WFV rMd5DateTwice := by decide +kernel
+
+/-- and the verdict on it is the specification's, for every MAC, credential table and clock reading: the
+    request is inside the region of `C11_verdict_iff_spec_partial` (it was excluded before the repair) -/
+theorem C11_repaired_positional_verdict (hmac : Bytes → Bytes → Bytes) (b64 : Bytes → Bytes)
+    (lookup : Bytes → Option Bytes) (nowNs : Int) (ak : Bytes) (hnow : 0 ≤ nowNs) (hclock : nowNs ≤ maxDateTimeNs) :
+    check hmac b64 lookup nowNs (ctxOf rMd5DateTwice) = .accept ak ↔
+      SigV2Spec.Accepts hmac b64 lookup nowNs rMd5DateTwice ak :=
+  C11.C11_verdict_iff_spec_partial hmac b64 lookup nowNs _ ak hnow hclock (by decide +kernel)
 
 /-- finding `xamzdate-repeated` (corpus `w-sts-xamzdate-twice`): x-amz-date sent twice does not blank Date -/
 def rXAmzDateTwice : SigV2Spec.Req :=
@@ -41,6 +56,13 @@ theorem C11_counterexample_xamzdate_repeated :
     stsImpl .header rXAmzDateTwice = sp!"GET\n\n\nD\nx-amz-date:A,B\n/bkt/k" ∧
     stsSpec .header rXAmzDateTwice = sp!"GET\n\n\n\nx-amz-date:A,B\n/bkt/k" ∧
     ¬ C11.WF .header rXAmzDateTwice := by decide +kernel
+
+/-- hence the full statement is false of the model -/
+theorem C11_sts_impl_eq_spec_full_false : ¬ C11.C11_sts_impl_eq_spec_full := by
+  intro h
+  have := h .header rXAmzDateTwice (by decide +kernel)
+  revert this
+  decide +kernel
 
 /-- repaired by 55f3d9c (was finding `expires-out-of-range`, corpus `w-presign-expires-year-10000`): the
     second after 9999-12-31T23:59:59Z used to be refused by `PresignedUrlV2::parse`; now the credentials
